@@ -108,7 +108,9 @@ PROPS = {
         # proved model rejects (or the other way round) is an input on which the property fails
         "verdict_is_spec": True,
         "modules": ["C02", "C02Hist"],
-        "streams": [{"name": "apply", "quick": 180, "thorough": 7200}, {"name": "chain", "quick": 75, "thorough": 2400}],
+        "streams": [{"name": "apply", "quick": 180, "thorough": 7200}, {"name": "chain", "quick": 75, "thorough": 2400},
+                    # "unlocked": spends of staked coins around the epoch boundaries of their stakes (fabricated histories)
+                    {"name": "stake", "quick": 90, "thorough": 3200}],
         "projection": "coins_after_batch",
         "oracles": ["utxo_reference"],
         "assumptions": ["faucet marker ids are disjoint from transaction hashes (domain-separated keyed hash) — hypothesis MarkersApart of C02_exact"],
@@ -152,7 +154,9 @@ PROPS = {
         # proved model rejects (or the other way round) is an input on which the property fails
         "verdict_is_spec": True,
         "modules": ["C06", "C06Hist"],
-        "streams": [{"name": "chain", "quick": 120, "thorough": 4000}],
+        "streams": [{"name": "chain", "quick": 120, "thorough": 4000},
+                    # blocks next to the TIP activation heights, offered to the node that ran through and to a restarted one
+                    {"name": "activation", "quick": 60, "thorough": 2400}],
         "projection": "blocks",
         "oracles": [],
         "assumptions": ["a block's header equality is decided on the real headers; the model computes the scalar header fields itself and is given the Merkle roots of the states involved"],
@@ -167,7 +171,10 @@ PROPS = {
     },
     "C08": {
         "modules": ["C08", "C08Reach"],
-        "streams": [{"name": "chain", "quick": 120, "thorough": 4000}],
+        "streams": [{"name": "chain", "quick": 120, "thorough": 4000},
+                    # restarts next to the TIP activation heights (a restarted node must treat the activation block like
+                    # the node that ran through: built-in pools, count migration)
+                    {"name": "activation", "quick": 90, "thorough": 2400}],
         "projection": "restore",
         "oracles": [],
         "assumptions": ["the content-addressed store is not modelled: fromBlock is given the tree contents the header's roots denote"],
